@@ -610,6 +610,102 @@ func (g *gen) sessClose() {
 			readInSection && lockP < setP && setP < unlockP && unlockP < writeP
 	}
 	g.p("Definition sc_closesession_sets_bit_before_write : bool := %v.\n", setBeforeWrite)
+
+	// setWriteDeadline (what every transmit call uses to honour its context):
+	// the select arm that runs on ctx.Done() expires the connection's write
+	// deadline and clears it again, in that order; the other arm touches no
+	// deadline. (Only one arm of a select runs: a clear that sits in the other
+	// arm leaves the deadline expired for ever after a cancellation.)
+	clearedWhereSet := false
+	if fd := funcDecl(sess, "setWriteDeadline"); fd != nil && fd.Body != nil {
+		ast.Inspect(fd.Body, func(m ast.Node) bool {
+			sel, is := m.(*ast.SelectStmt)
+			if !is {
+				return true
+			}
+			okCtx, others := false, 0
+			for _, st := range sel.Body.List {
+				cc, is := st.(*ast.CommClause)
+				if !is {
+					continue
+				}
+				onCtx := false
+				if cc.Comm != nil {
+					ast.Inspect(cc.Comm, func(k ast.Node) bool {
+						if ce, is := k.(*ast.CallExpr); is {
+							if c := scSelChain(ce.Fun); c != nil && len(c) == 2 && c[0] == "ctx" && c[1] == "Done" {
+								onCtx = true
+							}
+						}
+						return true
+					})
+				}
+				var args []string
+				for _, b := range cc.Body {
+					ast.Inspect(b, func(k ast.Node) bool {
+						if ce, is := k.(*ast.CallExpr); is {
+							if c := scSelChain(ce.Fun); c != nil && c[len(c)-1] == "SetWriteDeadline" && len(ce.Args) == 1 {
+								switch a := ce.Args[0].(type) {
+								case *ast.Ident:
+									args = append(args, a.Name)
+								case *ast.CompositeLit:
+									args = append(args, "zero")
+								default:
+									args = append(args, "?")
+								}
+							}
+						}
+						return true
+					})
+				}
+				if onCtx {
+					okCtx = len(args) == 2 && args[0] == "aLongTimeAgo" && args[1] == "zero"
+				} else {
+					others += len(args)
+				}
+			}
+			clearedWhereSet = okCtx && others == 0
+			return false
+		})
+	} else {
+		g.errs = append(g.errs, "session.go: func setWriteDeadline not found")
+	}
+	g.p("Definition sc_writedeadline_cleared_where_expired : bool := %v.\n", clearedWhereSet)
+
+	// conn.go newConn: when a plain io.ReadWriter is layered over the previous
+	// connection, the deadline methods are looked up on that previous connection
+	// (`prev`), for reading and for writing
+	fromPrev := false
+	if cf := g.parse("conn.go"); cf != nil {
+		if fd := funcDecl(cf, "newConn"); fd != nil && fd.Body != nil {
+			found := map[string]string{}
+			ast.Inspect(fd.Body, func(m ast.Node) bool {
+				ta, is := m.(*ast.TypeAssertExpr)
+				if !is || ta.Type == nil {
+					return true
+				}
+				it, is := ta.Type.(*ast.InterfaceType)
+				if !is || it.Methods == nil {
+					return true
+				}
+				x, _ := ta.X.(*ast.Ident)
+				for _, f := range it.Methods.List {
+					for _, n := range f.Names {
+						if x != nil {
+							found[n.Name] = x.Name
+						} else {
+							found[n.Name] = "?"
+						}
+					}
+				}
+				return true
+			})
+			fromPrev = found["SetReadDeadline"] == "prev" && found["SetWriteDeadline"] == "prev"
+		} else {
+			g.errs = append(g.errs, "conn.go: func newConn not found")
+		}
+	}
+	g.p("Definition sc_newconn_deadlines_from_prev : bool := %v.\n", fromPrev)
 	g.p("Definition sc_setclosedeadline_fresh_context : bool := %v.\n", fresh && nctx > 0)
 	g.p("Definition sc_setclosedeadline_cancels_previous : bool := %v.\n", savesOld && callsOld)
 	g.p("Definition sc_setclosedeadline_zero_is_no_deadline : bool := %v.\n", zero)
